@@ -268,7 +268,7 @@ def run(prop, tier, replay):
     fut_build = pool.submit(vlib.harness_build, "vh_namespace")
 
     # 1. model-check the intended design (one TLC process per family of small universes) ---------------------
-    families = ["intended-quick"] if quick else ["intended-a", "intended-b", "intended-c"]
+    families = ["intended-quick"] if quick else ["intended-a", "intended-b", "intended-c", "intended-d"]
     fut_mc = {f: pool.submit(vlib.tlc_mc, f"{prop}-{f}", "Namespace", cfg(f), 4, 3000, True, None, "6g") for f in families}
     # 1b. every as-built deviation breaks the named properties on the model; the first violating history of each
     #     (deviation, property) is printed as a witness and replayed below
